@@ -690,7 +690,7 @@ func (e *Env) mergeSlots(c *schema.Ctx) {
 		}
 		// helper(&target, slots...)
 		fn := c.Callee(call)
-		if fn == nil || fn.Pkg() != pkg.Types || fn.Name() == "mergeDecorations" {
+		if fn == nil || fn.Pkg() != pkg.Types || load.CanonName(fn) == "mergeDecorations" {
 			return true
 		}
 		var h *ast.FuncDecl
